@@ -26,10 +26,16 @@ for sid in seeds:
             print(sid, "PATCH DOES NOT APPLY"); res[sid] = {"applies": False}; sh("git reset -q --hard HEAD", REPO); continue
     fired, broken = {}, []
     order = [sid[:3]] + [c for c in claimed if c != sid[:3]]
+    order = [p for p in order if p in claimed]
+    import concurrent.futures as cf
+    outs = {}
+    if order:
+        outs[order[0]] = sh("./check %s" % order[0], V)  # populates the fact cache for this variant
+        with cf.ThreadPoolExecutor(max_workers=6) as ex:
+            for pid, o in zip(order[1:], ex.map(lambda p: sh("./check %s" % p, V), order[1:])):
+                outs[pid] = o
     for pid in order:
-        if pid not in claimed:
-            continue
-        o = sh("./check %s" % pid, V)
+        o = outs[pid]
         if o.returncode == 1:
             fired[pid] = [l.strip()[:200] for l in o.stdout.splitlines() if l.startswith("  [")][:3]
         elif o.returncode == 2:
